@@ -41,6 +41,17 @@ def run(prop, tier, seed):
         if ro.get("compile") != "ok":
             # the generated program is rejected or crashes the compiler: C03/C04 matter (or generator out of sync)
             not_compiled[(ro.get("compile") or "?") + ": " + (ro.get("panic") or (ro.get("diag_text") or "").strip().split("\n")[0])[:80]] += 1
+            # names are resolved before types are checked: where the editor still answers, the declaration it returns must be
+            # the innermost binding in scope (second clause of the property); hover is not judged on a rejected program
+            if lo.get("lsp") == "ok" and len(lo.get("answers") or []) == len(c["queries"]):
+                for q, a in zip(c["queries"], lo["answers"]):
+                    if "def" in q and a.get("def") is not None and a.get("def") != q["def"]:
+                        one = dict(lcase, id="%s.def.%d" % (c["id"], q["off"]), offsets=[q["off"]])
+                        rep.finding(q["kdef"], one, {"off": q["off"], "def": a.get("def")},
+                                    [{"field": "def", "want": q["def"], "got": a.get("def"), "query": q}],
+                                    "go-to-definition at offset %d (`%s`) returns a declaration that is not the innermost binding in "
+                                    "scope (the compiler rejects the program)" % (q["off"], q["name"]))
+                        break
             continue
         if vlib.compare(rcase["expect"], ro):
             # the compiler itself resolves / evaluates differently from lexical scoping: not an editor matter (C21)
